@@ -93,6 +93,9 @@ def check(rep):
     pool = expression_pool(model, rep.tier)
     x = ("Variable", "x")
     sample_tree = ("Minus", ("NthPower", x, 2), ("Multiply", [x, ("Variable", "y")]))
+    if rep.tier != "quick":
+        from ..simpengine import random_trees
+        pool = pool + [t for (t, _l) in random_trees(rep.seed, 300, 30, names=("x", "y", "long_name_2"))]
     cases = [("expr", t) for t in pool] + [("point", p) for p in POINTS]
     for tree in (x, sample_tree, ("NthRoot", x, 3), ("Logarithm", x, 2)):
         cases += [("deriv", ("Derivative", tree, None)) if len(spec.variables(tree)) == 1 else None,
